@@ -72,21 +72,34 @@ theorem bodiesSafe_insert (f : Str) (b : Expr) (l : List (Str × List Expr)) (hb
   · simp at h; subst h; exact hb
   · exact hl q hq x hxq
 
+theorem bodiesSafe_insertL (f : Str) (bs : List Expr) (l : List (Str × List Expr))
+    (hb : ∀ b ∈ bs, safe defd b = true)
+    (hl : BodiesSafe defd l) : BodiesSafe defd (groupInsert strCmp f bs l) := by
+  intro p hp x hx
+  rcases mem_groupInsert strCmp f bs l p hp x hx with h | ⟨q, hq, hxq⟩
+  · exact hb x h
+  · exact hl q hq x hxq
+
+theorem andStep_safe (acc : List (Str × List Expr)) (x : Expr) (hx : safe defd x = true)
+    (h : BodiesSafe defd acc) : BodiesSafe defd (andNestedStep acc x) := by
+  unfold andNestedStep
+  split
+  · rename_i f m1 m2 ms
+    simp only [safe] at hx
+    exact bodiesSafe_insertL defd f (m1 :: m2 :: ms) acc ((safeL_iff defd _).mp hx) h
+  · rename_i f b _
+    simp only [safe] at hx
+    exact bodiesSafe_insert defd f b acc hx h
+  · exact h
+
 theorem andFold_safe (shaken : List Expr) (hs : ∀ x ∈ shaken, safe defd x = true) :
-    ∀ acc, BodiesSafe defd acc →
-      BodiesSafe defd (shaken.foldl (fun acc x => match x with | .nested f b => groupInsert strCmp f [b] acc | _ => acc) acc) := by
+    ∀ acc, BodiesSafe defd acc → BodiesSafe defd (shaken.foldl andNestedStep acc) := by
   induction shaken with
   | nil => intro acc h; exact h
   | cons x xs ih =>
     intro acc h
     simp only [List.foldl_cons]
-    apply ih (fun y hy => hs y (by simp [hy]))
-    cases x with
-    | nested f b =>
-      have := hs (.nested f b) (by simp)
-      simp only [safe] at this
-      exact bodiesSafe_insert defd f b acc this h
-    | _ => exact h
+    exact ih (fun y hy => hs y (by simp [hy])) _ (andStep_safe defd acc x (hs x (by simp)) h)
 
 structure OrInv (st : OrSt) : Prop where
   any : ∀ x ∈ st.any, safe defd x = true
@@ -97,7 +110,11 @@ theorem orClassify_inv (st : OrSt) (x : Expr) (hx : safe defd x = true) (h : OrI
     OrInv defd (orClassify st x) := by
   unfold orClassify
   split
-  · rename_i f b
+  · refine ⟨h.any, fun y hy => ?_, h.nested⟩
+    rcases List.mem_append.mp hy with hy | hy
+    · exact h.rest y hy
+    · simp at hy; subst hy; exact hx
+  · rename_i f b _
     simp only [safe] at hx
     exact ⟨h.any, h.rest, bodiesSafe_insert defd f b _ hx h.nested⟩
   all_goals first
